@@ -432,6 +432,10 @@ package eval
 //@ func getNodeValueProxy C04 C05
 //@   requires [node] (and (not (= $n 0)) (not (= $ctx 0)) (not (= (fld $ctx VariableFetcher) VNil)) (=> (not (= (KIND $n) 1)) (is.string (fld $n value))))
 //@   ensures [constant] (=> (= (KIND $n) 1) (and (= $ret0 (fld $n value)) (= $ret1 ENil) (= (heap inv.Get.n) (old (heap inv.Get.n)))))
+//@   ensures [unavailable-variable-is-DNE] (let ((f (fld $ctx VariableFetcher)) (k (fld $n varKey)) (s (p_string (fld $n value))))
+//@      (=> (and (not (= (KIND $n) 1)) (not (inv_Cached_0 f k s))) (and (= $ret0 (DNEVAL)) (= $ret1 ENil) (= (heap inv.Get.n) (old (heap inv.Get.n))))))
+//@   ensures [available-variable-is-Get] (let ((f (fld $ctx VariableFetcher)) (k (fld $n varKey)) (s (p_string (fld $n value))))
+//@      (=> (and (not (= (KIND $n) 1)) (inv_Cached_0 f k s)) (and (= $ret0 (inv_Get_0 f k s)) (= $ret1 (inv_Get_1 f k s)) (= (heap inv.Get.n) (+ (old (heap inv.Get.n)) 1)))))
 //@   ensures [error-identity] (=> (not (= $ret1 ENil)) (= $ret1 (heap last.err)))
 //@   assigns inv.* last.err
 
@@ -797,16 +801,44 @@ package eval
 //@     (forall ((j Int)) (! (=> (and (<= o j) (< j (+ o n))) (not (= (select (arr (fld $e nodes)) j) 0))) :pattern ((select (arr (fld $e nodes)) j))))
 //@     (forall ((j Int)) (! (=> (and (<= po j) (< j (+ po n))) (and (<= -1 (select (arr (fld $e parentIdx)) j)) (< (select (arr (fld $e parentIdx)) j) n))) :pattern ((select (arr (fld $e parentIdx)) j))))
 //@     (forall ((k Int)) (! (=> (and (<= 0 k) (< k n) (= (KIND (NODEAT $e k)) 5) (= (fld (NODEAT $e k) value) (V_string "fi"))) (<= 0 (PARENTAT $e k))) :pattern ((PARENTAT $e k))))))
-//@ func calAndSetStackSize C09 C06
+// C01: the recorded slots follow the stack discipline of the evaluator: with F(k) = osTop(k)+1 the stack size after node k,
+// F(0) = 1; an operand inlined into a fast operator repeats its predecessor's size; every other node starts from the size its
+// predecessor left - the predecessor of the first node of an else branch being the `if` node, not the end-if marker before it -
+// and pushes one (leaf, fast operator), replaces its operands by one (operator), pops the condition (`if`) or keeps it (`fi`).
+//@ macro (SSF $e $k) (wrapS16 (+ (fld (NODEAT $e $k) osTop) 1))
+//@ macro (SSISFI $nd) (and (= (KIND $nd) 5) (= (fld $nd value) (V_string "fi")))
+//@ ghost (declare-fun fiG (Int) Bool)
+//@ macro (SSPREV $e $k) (ite (fiG (- $k 1)) (parG (- $k 1)) (- $k 1))
+//@ macro (SSSTEP $nd $b) (ite (or (= (KIND $nd) 1) (= (KIND $nd) 2) (= (KIND $nd) 4)) (wrapS16 (+ $b 1))
+//@      (ite (= (KIND $nd) 3) (wrapS16 (+ (wrapS16 (- $b (fld $nd childCnt))) 1))
+//@      (ite (= (KIND $nd) 5) (ite (= (fld $nd value) (V_keyword "if")) (wrapS16 (- $b 1)) $b) 0)))
+//@ macro (SSKNOWN $nd) (and (<= 1 (KIND $nd)) (<= (KIND $nd) 5))
+//@ macro (SSFASTCHILD $e $k) (and (not (= (parG $k) -1)) (= (kindAt (parG $k)) 4))
+//@ func calAndSetStackSize C09 C06 C01
 //@   requires [shape] (PROGSHAPE $e)
+//@   requires [ghost-tied] (forall ((j Int)) (! (=> (INNODES $e j) (let ((nd (select (arr (fld $e nodes)) j)) (k (- j (off (fld $e nodes)))))
+//@        (and (= (idxOf nd) k) (= (kindAt k) (KIND nd)) (= (parG k) (PARENTAT $e k)) (= (fiG k) (SSISFI nd))
+//@             (=> (fiG k) (and (<= 0 (parG k)) (< (parG k) k)))))) :pattern ((select (arr (fld $e nodes)) j))))
 //@   ensures [stack-maximum-covers-every-node] (and (>= (fld $e maxStackSize) 1)
 //@      (forall ((k Int)) (! (=> (and (<= 0 k) (< k (len (fld $e nodes)))) (or (< (fld (NODEAT $e k) osTop) (fld $e maxStackSize)) (= (fld (NODEAT $e k) osTop) 32767))) :pattern ((NODEAT $e k)))))
+//@   ensures [first-node-pushes-one] (= (SSF $e 0) 1)
+//@   ensures [stack-discipline] (forall ((j Int)) (! (=> (and (INNODES $e j) (< (off (fld $e nodes)) j)) (let ((k (- j (off (fld $e nodes)))))
+//@        (=> (or (SSFASTCHILD $e k) (SSKNOWN (select (arr (fld $e nodes)) j)))
+//@          (= (SSF $e k) (ite (SSFASTCHILD $e k) (SSF $e (- k 1)) (SSSTEP (select (arr (fld $e nodes)) j) (SSF $e (SSPREV $e k)))))))) :pattern ((select (arr (fld $e nodes)) j))))
 //@   loop 1 (i)
 //@     invariant [range] (and (<= 1 $i) (fresh $f) (= (len $f) (len (fld $e nodes))) (= (off $f) 0) (= (idx $f 0) 1))
 //@     invariant [frame] (forall ((r Int)) (! (=> (< r (old (next))) (= (select (heap E_int16) r) (select (old (heap E_int16)) r))) :pattern ((select (heap E_int16) r))))
+//@     invariant [discipline-so-far] (forall ((j Int)) (! (=> (and (INNODES $e j) (< (off (fld $e nodes)) j) (< j (+ (off (fld $e nodes)) $i))) (let ((k (- j (off (fld $e nodes)))))
+//@        (=> (or (SSFASTCHILD $e k) (SSKNOWN (select (arr (fld $e nodes)) j)))
+//@          (= (idx $f k) (ite (SSFASTCHILD $e k) (idx $f (- k 1)) (SSSTEP (select (arr (fld $e nodes)) j) (idx $f (SSPREV $e k)))))))) :pattern ((select (arr (fld $e nodes)) j))))
 //@   loop 2 (rangeindex)
 //@     invariant [covered-so-far] (and (>= $maxStackSize 1) (fresh $f) (= (len $f) (len (fld $e nodes))) (= (off $f) 0)
 //@      (forall ((k Int)) (! (=> (and (<= 0 k) (<= k $rangeindex)) (or (< (fld (NODEAT $e k) osTop) $maxStackSize) (= (fld (NODEAT $e k) osTop) 32767))) :pattern ((NODEAT $e k)))))
+//@     invariant [slots-written-so-far] (forall ((j Int)) (! (=> (and (INNODES $e j) (<= j (+ (off (fld $e nodes)) $rangeindex))) (let ((k (- j (off (fld $e nodes)))))
+//@        (= (wrapS16 (+ (fld (select (arr (fld $e nodes)) j) osTop) 1)) (idx $f k)))) :pattern ((select (arr (fld $e nodes)) j))))
+//@     invariant [discipline] (and (= (idx $f 0) 1) (forall ((j Int)) (! (=> (and (INNODES $e j) (< (off (fld $e nodes)) j)) (let ((k (- j (off (fld $e nodes)))))
+//@        (=> (or (SSFASTCHILD $e k) (SSKNOWN (select (arr (fld $e nodes)) j)))
+//@          (= (idx $f k) (ite (SSFASTCHILD $e k) (idx $f (- k 1)) (SSSTEP (select (arr (fld $e nodes)) j) (idx $f (SSPREV $e k)))))))) :pattern ((select (arr (fld $e nodes)) j)))))
 
 // C04 / C05 — the pass that tells every node which and/or it is an operand of (what TryEval's upward propagation
 // reads): exactly the parent-operator bits change; an operand of and gets the and bit, an operand of or the or bit,
